@@ -510,6 +510,39 @@ fn extra_legs(acc: &mut Acc) {
             _ => {}
         }
     }
+    // ---- (2b) one step name twice: every occurrence has its own authorised keys and threshold
+    for (first, second, present) in [
+        (vec![0usize], vec![1usize], vec![0usize]),
+        (vec![1], vec![0], vec![0]),
+        (vec![0], vec![1], vec![1]),
+        (vec![0], vec![0, 1], vec![0]),
+        (vec![0], vec![1], vec![0, 1]),
+        (vec![0], vec![0], vec![0]),
+    ] {
+        clear(&dir);
+        for i in &present {
+            world::write(&dir, &world::link_file("s0", f[*i]), &link_by(f[*i]));
+        }
+        let k1: Vec<&Key> = first.iter().map(|i| f[*i]).collect();
+        let k2: Vec<&Key> = second.iter().map(|i| f[*i]).collect();
+        let t2 = second.len() as u32;
+        let lay = world::sign_layout(world::layout(vec![world::step("s0", 1, &k1), world::step("s0", t2, &k2)], vec![], &[a, b], world::far_future()), &[owner]);
+        let ok1 = first.iter().any(|i| present.contains(i));
+        let ok2 = second.iter().filter(|i| present.contains(i)).count() as u32 >= t2.max(1);
+        let must_reject = !(ok1 && ok2);
+        acc.evaluations += 1;
+        acc.traces += 1;
+        acc.nontrivial += 1;
+        acc.states += 1;
+        let v = world::verify(&lay, world::owner_map(&[owner]), &dir);
+        acc.outcome(&format!("impl-{}/model-{}", v.tag(), if must_reject { "reject" } else { "accept" }));
+        let w = || json!({"kind": "step-name-twice", "first_pubkeys": first.iter().map(|i| FN_NAMES[*i]).collect::<Vec<_>>(), "second_pubkeys": second.iter().map(|i| FN_NAMES[*i]).collect::<Vec<_>>(), "second_threshold": t2, "links_present": present.iter().map(|i| FN_NAMES[*i]).collect::<Vec<_>>()});
+        match &v {
+            Verdict::Ok(_) if must_reject => acc.violation("counted:step-listed-twice", "a layout lists one step name twice; the authorised keys / threshold of one of the two occurrences were not enforced", w),
+            Verdict::Panic(l, m) => acc.violation(&format!("panic:{l}"), &format!("verification panicked at {l}: {m}"), w),
+            _ => {}
+        }
+    }
     // ---- (3) one key under two ids: A (hash-algorithm list [sha256, sha512]) and A2 (the same
     // material, no list) are both in the key table and both authorised; A's link exists once under
     // each id (the second is a copy with the key id replaced - nobody needs the private key for that)
@@ -575,7 +608,7 @@ pub fn run(tier: Tier) -> i32 {
     acc.transitions += tr2;
     bound += &format!("; 2 steps: BFS depth {depth2} = {} populations x {} layouts", states2.len(), specs2.len());
     extra_legs(&mut acc);
-    bound += "; misfiled evidence: 9 file-name slots x (alone / next to a proper link) x thresholds 1,2; 9 authorised lists with a repeated id; one key under two ids x 4 (population, threshold) pairs";
+    bound += "; misfiled evidence: 9 file-name slots x (alone / next to a proper link) x thresholds 1,2; 9 authorised lists with a repeated id; 6 layouts that list one step name twice; one key under two ids x 4 (population, threshold) pairs";
     c.acc = acc;
     c.bound_completed = bound;
     c.rule = "state = link-directory population: per (step, functionary in {A,B in key table; C not in key table; D in key table}) one of absent / tampered / sublayout / garbage / a link with one or two signature entries over {own-valid, own-invalid, other-valid, other-invalid, unrelated-valid} in every order (34 cells); transition = set one cell; every state is run through in_toto_verify for every layout (authorised subset x threshold); non-trivial = population with at least one non-valid file".into();
